@@ -40,23 +40,28 @@ const (
 	OrphanOpen       = "open-without-directive"
 )
 
+// GoldenRoot and GoldenAdmits expose the frozen table (C06 compares the library's live table with it cell by cell).
+func GoldenRoot(kind string) bool           { return goldenRoot[kind] }
+func GoldenAdmits(parent, child string) bool { return goldenChildren[parent][child] }
+
 // Resolve places the directives of the event sequence. It returns the top-level list and the rejection class.
 func Resolve(events []Event) ([]*Item, string) {
 	var roots []*Item
 	var cur *Item  // current context (nil = top level)
 	var last *Item // the directive an opening parenthesis refers to
+	placed := false
 	place := func(d *Item) string {
 		c := cur
 		for {
 			if c == nil {
-				if d.Kind.IsAllowedForRootContext() {
+				if goldenRoot[d.Kind.String()] {
 					roots = append(roots, d)
 					cur = d
 					return OK
 				}
 				return IncorrectContext
 			}
-			if c.Kind.IsAllowedForDirectiveContext(d.Kind) {
+			if goldenChildren[c.Kind.String()][d.Kind.String()] {
 				if d.HasPath && c.Kind == directive.URL {
 					if c.Explicit {
 						return IncorrectContext
@@ -77,20 +82,33 @@ func Resolve(events []Event) ([]*Item, string) {
 			c = c.Parent
 		}
 	}
+	// A directive is placed when the next directive, a ')' or the end of input follows it (its own '(' comes first): this
+	// only decides which of two faults of one document is met first.
+	flush := func() string {
+		if last == nil || placed {
+			return OK
+		}
+		placed = true
+		return place(last)
+	}
 	for _, e := range events {
 		switch e.Type {
 		case EvDirective:
-			d := &Item{Kind: e.Kind, HasPath: e.HasPath, Off: e.Off}
-			if r := place(d); r != OK {
+			if r := flush(); r != OK {
 				return roots, r
 			}
-			last = d
+			last = &Item{Kind: e.Kind, HasPath: e.HasPath, Off: e.Off}
+			placed = false
 		case EvOpen:
-			if last == nil {
+			if last == nil || last.Explicit {
+				// no directive whose context this parenthesis could open (also: the context of the last directive is open already)
 				return roots, OrphanOpen
 			}
 			last.Explicit = true
 		case EvClose:
+			if r := flush(); r != OK {
+				return roots, r
+			}
 			c := cur
 			for {
 				if c == nil {
@@ -104,6 +122,9 @@ func Resolve(events []Event) ([]*Item, string) {
 			}
 			last = nil
 		}
+	}
+	if r := flush(); r != OK {
+		return roots, r
 	}
 	for c := cur; c != nil; c = c.Parent {
 		if c.Explicit {
